@@ -15,6 +15,8 @@
  *                 digest types), write / end-chunk / write, close, free
  *       nowrite:  a = content; a writing context that is switched to ZCK_NO_WRITE after zck_init_write (the library closes
  *                 its temporary file), then written to, closed and freed - descriptor numbers are process-wide state
+ *       writefail: a = content; a writing context whose output is a small non-blocking pipe nobody drains: the header fits,
+ *                 copying the chunks at close fails; then zck_free - the failure path owns descriptors too
  *       misc:     a = file, b = another file: name tables, range rendering, error strings, chunk requests, matching
  *   explore threads=<i,j[,k]> bound=<preemptions> [maxexec=<n>]      one case: all schedules within the bound
  *   free threads=<i,j[,k]> reps=<n>                                    one case: free-running (race pass, tsan variant)
@@ -27,6 +29,7 @@
 #include "drv.h"
 #include "vfsched.h"
 #include <pthread.h>
+#include <fcntl.h>
 #include <stdarg.h>
 #include <sys/wait.h>
 #include <sys/mman.h>
@@ -105,6 +108,13 @@ static void prep(tstate *t) {
     } else if(!strcmp(s->scen, "life") || !strcmp(s->scen, "misc")) {
         t->fd1 = tmp_file_with("ql", s->a.p, s->a.n);
         if(s->b.n) t->fd2 = tmp_file_with("qL", s->b.p, s->b.n);
+    } else if(!strcmp(s->scen, "writefail")) {
+        int pf[2];
+        if(pipe2(pf, O_NONBLOCK) != 0) die("sched: pipe");
+        fcntl(pf[1], F_SETPIPE_SZ, 4096);
+        /* keep both ends away from the low numbers the library's own files will get */
+        t->fd2 = fcntl(pf[0], F_DUPFD, 40); real_close(pf[0]);
+        t->fd1 = fcntl(pf[1], F_DUPFD, 40); real_close(pf[1]);
     } else if(!strcmp(s->scen, "writez") || !strcmp(s->scen, "nowrite")) {
         t->fd1 = tmp_file("qz");
     } else die("sched: unknown scenario %s", s->scen);
@@ -255,6 +265,15 @@ static void body(void *v) {
         snprintf(t->obs, sizeof t->obs, "nowrite:ok=%d,%d:rets=%zd,%zd,%zd:close=%d:count=%zd:digest=%.16s", ok, nw, r1, r2, r3, cl, cnt, dd ? dd : "-");
         free(dd);
         if(z) zck_free(&z);
+    } else if(!strcmp(s->scen, "writefail")) {
+        zckCtx *z = zck_create();
+        int ok = z && zck_init_write(z, t->fd1);
+        ok = ok && zck_set_ioption(z, ZCK_COMP_TYPE, ZCK_COMP_NONE) && zck_set_ioption(z, ZCK_MANUAL_CHUNK, 1);
+        ssize_t r1 = -9, r2 = -9;
+        for(int i = 0; ok && i < 6; i++) { r1 = zck_write(z, (char *)s->a.p, s->a.n); r2 = zck_end_chunk(z); }
+        int cl = ok ? zck_close(z) : -9;
+        if(z) zck_free(&z);
+        snprintf(t->obs, sizeof t->obs, "writefail:ok=%d:rets=%zd,%zd:close=%d", ok, r1, r2, cl);
     } else if(!strcmp(s->scen, "misc")) {
         obsacc *o = calloc(1, sizeof *o);
         for(int ty = 0; ty < 7; ty++) oa(o, "%s,%s;", zck_hash_name_from_type(ty), zck_comp_name_from_type(ty));
